@@ -52,7 +52,8 @@ Inductive gstmt : Type :=
 | SAssign (lhs : list glhs) (rhs : list gexpr)    (* a, b := e  /  x.a = e          *)
 | SReturn (rs : list gexpr)                       (* return e, ...                  *)
 | SIf (body els : list gstmt)                     (* if cond { body } [else { els } | else if ...] *)
-| SBlock (body : list gstmt).                     (* { body }                       *)
+| SBlock (body : list gstmt)                      (* { body }                       *)
+| SCallLit (c : gcall) (body : list gstmt).       (* x.f(args, func() { body })     *)
 
 Record grecv := mkGRecv { rv_var : string; rv_type : string; rv_ptr : bool }.
 Record gimethod := mkGIM { im_name : string; im_params : list gparam; im_results : list gparam }.
@@ -248,9 +249,29 @@ Definition return_calls (scope : list (string * string)) (imports : list (string
         else []) params
     else []) rs.
 
+(* ------------------------------------------------------------------ what BuildMethodCall hands back
+   Besides filing the calls of a statement, BuildMethodCall RETURNS a CodeCall: the deferred call of a defer statement,
+   the last call a return statement filed, the zero value otherwise.  Only the walk over a function literal looks at
+   it -- and files it once more when its NodeName is not empty. *)
+Definition stmt_result (scope : list (string * string)) (pkg : string) (imports : list (string * string))
+           (params : list p3) (lvs : list (string * string)) (s : gstmt) : option ocall :=
+  match s with
+  | SDefer c => Some (build_call scope pkg imports params lvs c)
+  | SReturn rs => let l := return_calls scope imports params lvs rs in nth_error l (List.length l - 1)
+  | _ => None
+  end.
+
+Definition refile (r : option ocall) (cs : list ocall) : list ocall :=
+  match r with
+  | Some c => if String.eqb (oc_node c) "" then cs else (cs ++ [c])%list
+  | None => cs
+  end.
+
 (* ------------------------------------------------------------------ BuildMethodCall / BuildFunction
    IfStmt: the body block, then the else branch (a block or another if); BlockStmt: its
-   statements -- all with the function's localVars threaded through *)
+   statements -- all with the function's localVars threaded through; a call statement whose last
+   argument is a function literal: BuildCallFromExpr walks the literal's statements (their calls are
+   calls of the function), then the call itself is filed *)
 Fixpoint stmt_step (scope : list (string * string)) (pkg : string) (imports : list (string * string))
          (params : list p3) (s : gstmt) (acc : list (string * string) * list ocall)
   : list (string * string) * list ocall :=
@@ -259,7 +280,19 @@ Fixpoint stmt_step (scope : list (string * string)) (pkg : string) (imports : li
                  | [] => a
                  | x :: r => steps r (stmt_step scope pkg imports params x a)
                  end in
+  (* the statements of a function literal passed as an argument: each one sees the localVars of the call statement
+     (what it declares is dropped) and the package the call was filed under as the current package; the call
+     BuildMethodCall hands back is filed once more (refile: open finding D-C20-lit-defer) *)
+  let lit := fix lit (pk : string) (lv : list (string * string)) (l : list gstmt) (cs : list ocall) : list ocall :=
+               match l with
+               | [] => cs
+               | x :: r => lit pk lv r (refile (stmt_result scope pk imports params lv x)
+                                               (snd (stmt_step scope pk imports params x (lv, cs))))
+               end in
   match s with
+  | SCallLit c body =>
+    let call := build_call scope pkg imports params (fst acc) c in
+    (fst acc, (lit (oc_pkg call) (fst acc) body (snd acc) ++ [call])%list)
   | SExpr c => (fst acc, (snd acc ++ [build_call scope pkg imports params (fst acc) c])%list)
   | SDefer c => (fst acc, (snd acc ++ [build_call scope pkg imports params (fst acc) c])%list)
   | SAssign lhs rhs => (assign_vars scope lhs rhs, (snd acc ++ assign_calls scope imports lhs rhs)%list)
